@@ -344,6 +344,12 @@ class Actor(object):
         self.router.set(self.transport)
 
     # ---- invariants -----------------------------------------------------
+    def scope_now(self):
+        try:
+            return self.resolver.resolution_scope
+        except Exception as x:      # e.g. an emptied scope stack: the observation itself is the symptom
+            return "<resolution_scope raises %s>" % type(x).__name__
+
     def check_invariants(self, where, scope=True, ended_in_exception=False):
         """Return list of violation dicts (oracle ids are stable strings).
 
@@ -361,10 +367,10 @@ class Actor(object):
                 # diagnostic probe only (private read): something is still pushed although the public
                 # resolution_scope may happen to look right (a leaked scope equal to the base)
                 self.probe("scope_stack_deeper_than_base_after_op")
-            now = self.resolver.resolution_scope
+            now = self.scope_now()
             if now != self.scope0 and ended_in_exception:
                 guarded_collect()
-                now = self.resolver.resolution_scope
+                now = self.scope_now()
                 if now == self.scope0:
                     self.probe("scope_restored_only_after_gc_of_dead_consumer")
             if now != self.scope0:
